@@ -52,7 +52,18 @@ def boundary_cases():
     for label, tree in p03.refine_trees():
         if label.startswith('refine'):
             texts.append(rg.render(rg.map_locals(tree, lambda x: x), 'MATH')[0])
-    meta_ctx = {'types': ctx.types, 'funcs': {}, 'traits': ctx.traits, 'vclass': ctx.vclass, 'bodies': {},
+    # templated functions sharing a radical (an earlier argument typed from the empty set), property / value functions over Z
+    p03.fixed_functions(ctx)
+    for label, tree in p03.call_trees():
+        if not label.startswith('vcall-define'):
+            texts.append(rg.render(rg.map_locals(tree, lambda x: x), 'MATH')[0])
+    # filters whose argument has the empty-set typification: the parameters are not type-checked, evaluation must not touch them
+    for arg in ('∅', 'debool({∅})', 'red(∅)', 'Pr1(∅)', 'S1\\S1', 'D{x∈∅ | 1=1}', 'red({∅})'):
+        for par in ('pr1(X1)', '1', 'card(X1)', 'X1', 'S1', '(X1,X1)', 'debool(X1)', '∅', 'pr1(debool(X1))'):
+            texts.append(f'Fi1[{par}]({arg})')
+            texts.append(f'Fi1,2[{par}]({arg})')
+            texts.append(f'Fi2,1[{par},{par}]({arg})')
+    meta_ctx = {'types': ctx.types, 'funcs': ctx.funcs, 'traits': ctx.traits, 'vclass': ctx.vclass, 'bodies': ctx.bodies,
                 'data': {k: sm.enum_spec(v) for k, v in ctx.data.items()}}
     cases = []
     for t in texts:
